@@ -138,11 +138,30 @@ func genClEntry(r *core.Rand) clEntry {
 	e := clEntry{Source: r.Pick([]string{"hello", "libfoo", "0ad", "x-y.z+1"})}
 	ep, u, rv, hr := genWFVersion(r)
 	e.Version = renderWF(ep, u, rv, hr)
-	for n := r.Range(1, 3); n > 0; n-- {
-		e.Dists = append(e.Dists, r.Pick([]string{"unstable", "experimental", "bookworm-backports", "stable"}))
+	// tokens may begin and end with any printable byte the header grammar does not reserve
+	// (blank, comma, semicolon, '=', parentheses): "_", "%", "~", "+", quotes, ... are ordinary
+	odd := func(tok string) string {
+		if r.Chance(1, 8) {
+			const oddBytes = "_%~+\"'#*!?@^&|/\\.:-"
+			c := string(oddBytes[r.Intn(len(oddBytes))])
+			switch r.Intn(3) {
+			case 0:
+				return tok + c
+			case 1:
+				return c + tok
+			}
+			return c + tok + c
+		}
+		return tok
 	}
 	for n := r.Range(1, 3); n > 0; n-- {
-		e.Opts = append(e.Opts, [2]string{r.Pick([]string{"urgency", "binary-only", "x-flag"}), r.Pick([]string{"low", "medium", "yes", "high (security)"})})
+		e.Dists = append(e.Dists, odd(r.Pick([]string{"unstable", "experimental", "bookworm-backports", "stable"})))
+	}
+	for n := r.Range(1, 3); n > 0; n-- {
+		e.Opts = append(e.Opts, [2]string{odd(r.Pick([]string{"urgency", "binary-only", "x-flag"})), odd(r.Pick([]string{"low", "medium", "yes", "high (security)"}))})
+	}
+	if r.Chance(1, 8) {
+		e.Source = odd(e.Source)
 	}
 	for n := r.Range(1, 5); n > 0; n-- {
 		e.Body = append(e.Body, r.Pick([]string{"  * New upstream release.", "", "  * Fix a bug; closes: #123456", "    continued line", "  [ Someone ]", " -- not a trailer? no: this is indented differently", "  * a -- b"}))
